@@ -852,7 +852,7 @@ pub fn gen_input(rng: &mut Rng, case: &Case) -> String {
             rng.pick(&spellings).to_string()
         }
     };
-    match rng.weighted(&[6, 6, 12, 14, 14, 8, 10, 16, 2, 6, 6]) {
+    match rng.weighted(&[6, 6, 12, 14, 14, 8, 10, 16, 2, 6, 6, 8]) {
         0 => String::new(),
         1 => {
             // blank or invisible strings, alone or in front of / behind a spelling
@@ -901,6 +901,17 @@ pub fn gen_input(rng: &mut Rng, case: &Case) -> String {
         9 => {
             let b = base(rng);
             b.to_uppercase()
+        }
+        11 => {
+            // bit 0x20 flipped on ASCII bytes that are NOT letters ('_' <-> DEL, ' ' <-> NUL, '1' <-> 0x11,
+            // '-' <-> CR, '[' <-> '{'): only letters have a "case"
+            let b = base(rng);
+            let all = rng.chance(1, 2);
+            let flipped: String = b
+                .chars()
+                .map(|c| if c.is_ascii() && !c.is_ascii_alphabetic() && (all || rng.chance(1, 2)) { ((c as u8) ^ 0x20) as char } else { c })
+                .collect();
+            flipped
         }
         _ => {
             let b = base(rng);
